@@ -176,15 +176,58 @@ def step_pipeline(fn: ast.FunctionDef, game: str, returns_reward: bool) -> List[
     return out
 
 
+def setup_sharing_program(fn: ast.FunctionDef) -> Tuple[List[str], List[str]]:
+    """`PrimaiteGame.setup_reward_sharing(self)` as the program it is (Model/Reward.lean `SetupProg`): it must be `graph = {}`, ONE loop
+    `for name, agent in self.agents.items():` = `graph[name] = set()` + ONE loop `for comp, weight in
+    agent.reward_function.reward_components:` = ONE `if isinstance(comp, SharedReward):` whose statements are among
+    `graph[name].add(comp.config.agent_name)` and `comp.callback = lambda agent_name: self.agents[agent_name].reward_function.current_reward`
+    (a bare annotation `comp: SharedReward` is dropped), followed by statements among `if graph_has_cycle(graph): raise RuntimeError(…)`
+    and `self._reward_calculation_order = topological_sort(graph)`. Returned in source order; their ORDER and MULTIPLICITY are what
+    Props/C10.lean proves equal to the model. Anything else raises."""
+    body = [st for st in fn.body if not (isinstance(st, ast.Expr) and isinstance(st.value, ast.Constant))]
+    if [a.arg for a in fn.args.args] != ["self"] or len(body) < 2 or ast.unparse(body[0]) != "graph = {}":
+        raise ValueError("setup_reward_sharing does not start with `graph = {}`")
+    loop = body[1]
+    if not isinstance(loop, ast.For) or ast.unparse(loop.target) != "(name, agent)" or ast.unparse(loop.iter) != "self.agents.items()" \
+            or loop.orelse or len(loop.body) != 2 or ast.unparse(loop.body[0]) != "graph[name] = set()":
+        raise ValueError("setup_reward_sharing: the loop over the agents is not `graph[name] = set()` + one loop over the components")
+    inner = loop.body[1]
+    if not isinstance(inner, ast.For) or ast.unparse(inner.target) != "(comp, weight)" or inner.orelse \
+            or ast.unparse(inner.iter) != "agent.reward_function.reward_components" or len(inner.body) != 1 \
+            or not isinstance(inner.body[0], ast.If) or ast.unparse(inner.body[0].test) != "isinstance(comp, SharedReward)" \
+            or inner.body[0].orelse:
+        raise ValueError("setup_reward_sharing: the loop over the components is not one `if isinstance(comp, SharedReward):`")
+    per = []
+    for st in inner.body[0].body:
+        src = ast.unparse(st)
+        if isinstance(st, ast.AnnAssign) and st.value is None:
+            continue
+        if src == "graph[name].add(comp.config.agent_name)":
+            per.append(".addArc")
+        elif src == "comp.callback = lambda agent_name: self.agents[agent_name].reward_function.current_reward":
+            per.append(".setCallback")
+        else:
+            raise ValueError(f"setup_reward_sharing: unrecognised statement for a shared component `{src[:90]}`")
+    tail = []
+    for st in body[2:]:
+        src = ast.unparse(st)
+        if isinstance(st, ast.If) and ast.unparse(st.test) == "graph_has_cycle(graph)" and not st.orelse and len(st.body) == 1 \
+                and isinstance(st.body[0], ast.Raise) and ast.unparse(st.body[0].exc).startswith("RuntimeError("):
+            tail.append(".raiseIfCycle")
+        elif src == "self._reward_calculation_order = topological_sort(graph)":
+            tail.append(".assignOrder")
+        else:
+            raise ValueError(f"setup_reward_sharing: unrecognised statement `{src[:90]}`")
+    return per, tail
+
+
 def shape_report() -> List[Tuple[str, bool, str]]:
     """(function, text-identical to the transcribed shape?, normalised source now) for the functions whose control flow the
     models transcribe by hand (deliberately blunt: any edit of these functions is reported)."""
     rw = parse("game/agent/rewards.py")
-    gm = parse("game/game.py")
     fns: Dict[str, ast.FunctionDef] = {
         "rf_init": find_method(class_def(rw, "RewardFunction"), "__init__"),
         "register_component": find_method(class_def(rw, "RewardFunction"), "register_component"),
-        "setup_reward_sharing": find_method(class_def(gm, "PrimaiteGame"), "setup_reward_sharing"),
         "update_reward": find_method(class_def(parse("game/agent/interface.py"), "AbstractAgent"), "update_reward"),
         "save_reward_to_history": find_method(class_def(parse("game/agent/interface.py"), "AbstractAgent"), "save_reward_to_history"),
     }
@@ -227,6 +270,11 @@ def emit() -> str:
                      "self.step_counter > 0`?, operation on the agent looked up by `self.agents[agent_name]`) -/\n"
                      "def updateAgentsProgram : List (Bool × AOp) :=\n  ["
                      + ", ".join(f"({'true' if g else 'false'}, .{o})" for g, o in prog) + "]")
+    # `PrimaiteGame.setup_reward_sharing`: the statements of its loops and of its tail, in source order
+    per, tail = setup_sharing_program(find_method(class_def(parse("game/game.py"), "PrimaiteGame"), "setup_reward_sharing"))
+    calc_defs.append("/-- `PrimaiteGame.setup_reward_sharing` (game/game.py), statement by statement: what is done for every `SharedReward` "
+                     "component of every agent, and what follows the loops -/\ndef setupSharingProgram : SetupProg :=\n  "
+                     "{ perShared := [" + ", ".join(per) + "], tail := [" + ", ".join(tail) + "] }")
     # the three step pipelines: order of tick / snapshot / update_agents / returned reward
     pipes = [("PrimaiteGame.step", False, step_pipeline(find_method(class_def(parse("game/game.py"), "PrimaiteGame"), "step"), "self", False)),
              ("PrimaiteGymEnv.step", True,
@@ -305,8 +353,5 @@ Deliberately blunt; the semantic ties are the differential rigs (R-rew, exhausti
 def weightPassedUnchanged : Bool := {b(shape_ok["rf_init"] and shape_ok["register_component"])}
 /-- `update_reward` passes `self.history[-1]`; `save_reward_to_history` writes `current_reward` into `self.history[-1].reward` -/
 def agentRewardPlumbing : Bool := {b(shape_ok["update_reward"] and shape_ok["save_reward_to_history"])}
-/-- `setup_reward_sharing`: one `set` per agent, every `SharedReward` component adds its `agent_name` and gets the callback reading
-`current_reward`; `graph_has_cycle` → `RuntimeError`; order = `topological_sort(graph)` -/
-def setupRewardSharingShape : Bool := {b(shape_ok["setup_reward_sharing"])}
 end Primaite.Gen.Reward
 """
